@@ -111,6 +111,45 @@ def gen_merge_history(rng):
     return calls
 
 
+def all_category_pair(rng):
+    """(a, b): b differs from a in every category on cells that stay aligned: source, outputs, attachments, metadata, id,
+    execution count"""
+    minor = 5
+    used = set()
+    a = gen_nb.gen_notebook(rng, minor, ncells=0)
+    a['cells'] = [gen_nb.long_cell(rng, minor, used, 'code'), gen_nb.long_cell(rng, minor, used, 'markdown'), gen_nb.long_cell(rng, minor, used, 'code')]
+    b = copy.deepcopy(a)
+    for c in b['cells']:
+        c['id'] = gen_nb.new_id(rng, used)
+        c['metadata'] = dict(c['metadata'], touched=rng.randrange(9))
+        c['source'] = c['source'] + '\n# edited'
+        if c['cell_type'] == 'code':
+            c['execution_count'] = (c.get('execution_count') or 0) + 3
+            c['outputs'] = c['outputs'] + [{'output_type': 'stream', 'name': 'stdout', 'text': 'more\n'}]
+        else:
+            c['attachments'] = {'pic.png': {'image/png': gen_nb.B64[0]}}
+    return a, b
+
+
+def gen_cycle_history(rng, k):
+    """configure category k away (diff targets or an Ignore mapping), reset, then diff notebooks that differ in every category:
+    after the reset everything must be as in a fresh interpreter"""
+    cat = c14.CATS[k % len(c14.CATS)]
+    calls = []
+    a, b = all_category_pair(rng)
+    if (k // len(c14.CATS)) % 2 == 0:
+        calls.append({'t': 'targets', 'flags': [c != cat for c in c14.CATS]})
+    else:
+        calls.append({'t': 'ignores', 'm': [[p, v] for p, v in c14.ignore_mapping([cat]).items()]})
+    if rng.random() < 0.5:
+        calls.append({'t': 'diff', 'a': enc(a), 'b': enc(b)})
+    calls.append({'t': 'reset'})
+    calls.append({'t': 'diff', 'a': enc(a), 'b': enc(b)})
+    base, l, rr, _ = gen_nb.triple_scenario(rng, first='concurrent-insert')
+    calls.append({'t': 'merge', 'b': enc(base), 'l': enc(l), 'r': enc(rr), 'args': mergelib.Args('inline').key()})
+    return calls
+
+
 def run_worker(calls, single_index=None):
     env = dict(os.environ, PYTHONPATH=vlib.REPO)
     job = {'calls': calls}
@@ -200,6 +239,7 @@ def run(ctx):
     histories += [gen_history(rng, rng.choice([3, 5, 8, 12])) for _ in range(n)]
     histories += [gen_merge_history(rng) for _ in range(14 if ctx.tier == 'quick' else 300)]
     histories += [gen_cli_history(rng) for _ in range(10 if ctx.tier == 'quick' else 150)]
+    histories += [gen_cycle_history(rng, k) for k in range(12 if ctx.tier == 'quick' else 120)]
     mism = check_histories(ctx, histories, 12 if ctx.tier == 'quick' else 150)
     ctx.cov['correspondence_mismatches'] = len(mism)
     if mism and not ctx.violations:
